@@ -251,6 +251,19 @@ func c17CoqPProgram(p c17Prog) string {
 	return "[" + strings.Join(ls, ";\n   ") + "]"
 }
 
+// a cprogram literal: (inside a conditional section, line)
+func c17CoqCProgram(p c17Prog) string {
+	plain := c17CoqProgram(p) // "[mkLine ..;\n   mkLine ..]"
+	items := strings.Split(strings.TrimSuffix(strings.TrimPrefix(plain, "["), "]"), ";\n   ")
+	if len(p) == 0 {
+		return "[]"
+	}
+	for i := range items {
+		items[i] = fmt.Sprintf("(%v, %s)", p[i].Cond, items[i])
+	}
+	return "[" + strings.Join(items, ";\n   ") + "]"
+}
+
 func c17CoqVerdictList(fields []string) string {
 	var vs []string
 	for _, f := range fields {
@@ -311,12 +324,30 @@ func c17CrossCheckSpelled(ctx *Ctx, res *Result, sb *strings.Builder) int {
 	for _, a := range alone {
 		reqs = append(reqs, a.request())
 	}
+	var conds []c17Prog
+	scratch := &Result{}
+	for len(conds) < 12 {
+		conds = append(conds, c17RandomCondProgram(rng, scratch))
+	}
+	for _, p := range conds {
+		reqs = append(reqs, fmt.Sprintf("chkc %d %s", p.fuel(), p.words()))
+	}
 	ans, err := runOracle(ctx, "c17", reqs)
 	if err != nil {
 		res.Broken = err.Error()
 		return 0
 	}
 	n := 0
+	for i, p := range conds {
+		a := strings.Fields(ans[2*len(progs)+len(alone)+i])
+		fmt.Fprintf(sb, "Definition cp%d : cprogram :=\n  %s.\n", i, c17CoqCProgram(p))
+		if len(a) > 0 && a[0] == "panic" {
+			fmt.Fprintf(sb, "Goal check_c cp%d = Panic. Proof. vm_compute. reflexivity. Qed.\n", i)
+		} else {
+			fmt.Fprintf(sb, "Goal check_c cp%d = Ok %s. Proof. vm_compute. reflexivity. Qed.\n", i, c17CoqVerdictList(a[1:]))
+		}
+		n++
+	}
 	for i, p := range progs {
 		fmt.Fprintf(sb, "Definition pp%d : pprogram :=\n  %s.\n", i, c17CoqPProgram(p))
 		a := strings.Fields(ans[2*i])
@@ -340,4 +371,53 @@ func c17CrossCheckSpelled(ctx *Ctx, res *Result, sb *strings.Builder) int {
 		n++
 	}
 	return n
+}
+
+// ---------- conditional sections ----------
+
+// c17RandomCondProgram wraps one or two runs of lines of a random program
+// (within one file) into ".if 1" ... ".endif"; the lines in between are inside a
+// conditional section (Cond).  The condition mentions no variable: a condition
+// that does is a read of that variable, which is outside Model/RedundantCond.v.
+// For make ".if 1" is always taken, so the evaluator reads the same lines.
+func c17RandomCondProgram(rng *Rng, res *Result) c17Prog {
+	p := c17RandomProgram(rng)
+	var out c17Prog
+	open := -1 // file of the open section
+	nCond, plainAfter := 0, false
+	condVars := map[string]bool{}
+	for i := 0; i < len(p); i++ {
+		l := p[i]
+		if open >= 0 && (l.File != open || rng.Chance(35)) {
+			out = append(out, c17Line{File: open, Raw: ".endif"})
+			open = -1
+		}
+		if open < 0 && rng.Chance(22) && !strings.HasPrefix(l.Raw, ".include") {
+			out = append(out, c17Line{File: l.File, Raw: Pick(rng, []string{".if 1", ".if 1 == 1", ".if 1 # always"})})
+			open = l.File
+		}
+		if open >= 0 {
+			l.Cond = true
+			if l.Assign {
+				nCond++
+				condVars[l.Var] = true
+			}
+		} else if l.Assign && condVars[l.Var] {
+			plainAfter = true
+		}
+		out = append(out, l)
+		// an .include line inside a section would put the whole included block into it
+		if open >= 0 && i+1 < len(p) && p[i+1].File != l.File {
+			out = append(out, c17Line{File: open, Raw: ".endif"})
+			open = -1
+		}
+	}
+	if open >= 0 {
+		out = append(out, c17Line{File: open, Raw: ".endif"})
+	}
+	res.Count("cond_lines_conditional_assignments", nCond)
+	if plainAfter {
+		res.Count("cond_programs_with_later_plain_write", 1)
+	}
+	return c17Number(out)
 }
